@@ -879,6 +879,9 @@ def _skip_event(*events, **kwargs):
     for e in events:
         subpaths = _subpaths(e, what, changed)
         if subpaths is None:
+            if e.old is e.new and e.type != 'triggered':
+                # (nothing to compare, and nothing was attached)
+                continue
             return False
         # (an event that waited for the end of a batch knows what was
         # reached through the previous subobject when it was replaced
@@ -969,6 +972,12 @@ def _is_m_caller(fn):
     asked of a callback of the user: it may answer anything to getattr).
     """
     return isinstance(fn, partial) and fn.func in (_sync_caller, _async_caller)
+
+
+def _method_of(caller):
+    """What identifies the dependent method an internal caller runs."""
+    function = caller.keywords.get('function')
+    return (id(getattr(function, '__self__', None)), getattr(function, '__name__', None))
 
 
 def _add_doc(obj, docstring):
@@ -2720,11 +2729,12 @@ class Parameters:
                                   if (n.cls if n.inst is None else n.inst) is wobj and n.what == w.what
                                   and set(w.parameter_names) <= set(n.parameter_names)), None)
                 if successor is not None:
+                    # (with the events that were queued for it: they are
+                    # found through the predecessor - the very object that
+                    # is waiting - when the batch ends)
+                    successor.fn._predecessor = next(q for q in wobj.param._state_watchers if w == q)
                     wobj.param._state_watchers = [
                         successor if w == q else q for q in wobj.param._state_watchers]
-                    # (with the events that were queued for it: they are
-                    # found through the predecessor when the batch ends)
-                    successor.fn._predecessor = w
         for m in init_methods:
             m()
         return compared
@@ -3309,14 +3319,15 @@ class Parameters:
         if self_._BATCH_WATCH:
             keywords = watcher.fn.keywords if _is_m_caller(watcher.fn) else None
             reached = dict(getattr(event, 'reached', None) or {})
-            entered = dict(getattr(event, 'entered', None) or {})
+            # (a method of this very object: Parameter.__set__ has set up
+            # its dependencies again before dispatching; what it recorded of
+            # the new object means nothing to the method of another object)
+            own = bool(keywords) and getattr(keywords.get('function'), '__self__', None) is self_.self_or_cls
+            entered = dict(getattr(event, 'entered', None) or {}) if own else {}
             if keywords and keywords.get('changed') is not None:
                 # A method depending on something reached through the
                 # object being replaced: whether that changes is judged at
                 # the end of the batch, against what is reached now
-                # (a method of this very object: Parameter.__set__ has set up
-                # its dependencies again before dispatching)
-                own = getattr(keywords.get('function'), '__self__', None) is self_.self_or_cls
                 for p, what in _subpaths(event, keywords.get('what', 'value'), keywords['changed']) or []:
                     # (unless they were set up again already, the
                     # dependencies of the method follow the new object only
@@ -3349,39 +3360,39 @@ class Parameters:
                 event_dict = OrderedDict()
                 chains = {}
                 qualified = defaultdict(set)
-                queued_for = {}
                 for event in self_._events:
                     key = (event.name, event.what)
-                    if getattr(event, 'watcher', None) is not None:
-                        qualified[id(event.watcher)].add(key)
-                        queued_for[id(event.watcher)] = event.watcher
+                    queued_watcher = getattr(event, 'watcher', None)
+                    if queued_watcher is not None:
+                        qualified[id(queued_watcher)].add(key)
                     first = event_dict.get(key)
                     # For the internal watchers of sub-object dependencies:
-                    # what the dependent methods know. It starts as what
+                    # what each dependent method knows. It starts as what
                     # was reached through the object replaced first; when
                     # an object is replaced showing something else than
                     # when it was attached, its own watchers have announced
-                    # that meanwhile.
+                    # that meanwhile (and the method saw all there was).
                     reached = getattr(event, 'reached', None) or {}
-                    entered = getattr(event, 'entered', None) or {}
-                    chain = chains.get(key)
-                    if chain is None:
-                        chain = chains[key] = {'known': {}, 'attached': {}, 'entered': {},
-                                               'old': event.old, 'new': event.new}
-                    elif event.old is not chain['old'] or event.new is not chain['new']:
-                        # (the next assignment of the batch)
-                        chain.update(attached=chain['entered'], entered={}, old=event.old, new=event.new)
-                    for path, value in reached.items():
-                        if path not in chain['known'] or (
-                                path in chain['attached'] and chain['attached'][path] is not value
-                                and not Comparator.is_equal(chain['attached'][path], value)):
-                            chain['known'][path] = value
-                    chain['entered'].update(entered)
-                    if first is not None and (first.old is not event.old or chain['known']):
+                    if reached and queued_watcher is not None and _is_m_caller(queued_watcher.fn):
+                        entered = getattr(event, 'entered', None) or {}
+                        method = _method_of(queued_watcher.fn)
+                        chain = chains.get((key, method))
+                        if chain is None:
+                            chain = chains[(key, method)] = {'known': {}, 'attached': {}, 'entered': {},
+                                                             'old': event.old, 'new': event.new}
+                        elif event.old is not chain['old'] or event.new is not chain['new']:
+                            # (the next assignment of the batch)
+                            chain.update(attached=chain['entered'], entered={}, old=event.old, new=event.new)
+                        told = any(path in chain['attached'] and chain['attached'][path] is not value
+                                   and not Comparator.is_equal(chain['attached'][path], value)
+                                   for path, value in reached.items())
+                        for path, value in reached.items():
+                            if told or path not in chain['known']:
+                                chain['known'][path] = value
+                        chain['entered'].update(entered)
+                    if first is not None and first.old is not event.old:
                         event = Event(what=event.what, name=event.name, obj=event.obj, cls=event.cls,
                                       old=first.old, new=event.new, type=event.type)
-                    if chain['known']:
-                        event = _QueuedEvent.of(event, dict(chain['known']), entered=dict(chain['entered']))
                     elif type(event) is not Event:
                         event = Event(*event)
                     event_dict[key] = event
@@ -3397,10 +3408,6 @@ class Parameters:
                         previous, lineage.fn._predecessor = lineage.fn._predecessor, None
                         lineage = previous
                         keys = qualified.get(id(lineage))
-                        if keys is None:
-                            # (in a deep copy the watcher kept by the object
-                            # and the one registered are equal, not identical)
-                            keys = next((qualified[i] for i, w in queued_for.items() if w == lineage), None)
                         if keys:
                             mine = keys | (mine or set())
                     events = [self_._update_event_type(watcher, event_dict[(name, watcher.what)],
@@ -3408,6 +3415,12 @@ class Parameters:
                               for name in watcher.parameter_names
                               if (name, watcher.what) in event_dict
                               and (mine is None or (name, watcher.what) in mine)]
+                    if _is_m_caller(watcher.fn):
+                        method = _method_of(watcher.fn)
+                        for i, event in enumerate(events):
+                            chain = chains.get(((event.name, event.what), method))
+                            if chain is not None and chain['known']:
+                                events[i] = _QueuedEvent.of(event, dict(chain['known']), entered=dict(chain['entered']))
                     with _batch_call_watchers(self_.self_or_cls, enable=watcher.queued, run=False):
                         self_._execute_watcher(watcher, events)
         except BaseException:
